@@ -5,7 +5,9 @@ FPy dialect (pyvc/fpydialect.py) with rnd DEFINED as round-to-nearest-even at p
 significant digits with an unbounded exponent range (so no overflow / underflow of any
 term), for each concrete p in `int_cases`; the operands range SYMBOLICALLY over all
 p-digit significands and all exponents in [-6, 6]:  a = ma * 2^ea, |ma| < 2^p, |ea| <= 6.
-One bit-vector query per clause and p.  Bound: p <= 5, |e| <= 6.
+One bit-vector query per clause and p, decided by exhaustive evaluation over the box (option 'bv_enum',
+pyvc/bvenum.py) with the SAT solver as fall-back.  Bound: p <= 5, |e| <= 6.
+Other rounding modes, odd precisions for every function: contracts/c20x_eft_modes.py.
 """
 from speclib import *
 from spec.c20 import *
@@ -17,7 +19,7 @@ class eft_fast_2sum(Contract):
     returns = 'tuple[Fraction, Fraction]'
     properties = ['C20']
     split = ['p']
-    options = {'dialect': 'fpy', 'fpy_rnd': 'rne', 'bounded': 6, 'bounded_try_ms': 150000, 'bounded_ms': 60000,
+    options = {'dialect': 'fpy', 'fpy_rnd': 'rne', 'bounded': 6, 'bv_enum': True, 'bounded_try_ms': 150000, 'bounded_ms': 60000,
                'int_cases': {'p': [2, 3, 4, 5]}, 'fpy_operands': {'a': ('ma', 'ea'), 'b': ('mb', 'eb')}}
     note = 'BOUNDED: RNE at p digits, p in {2,3,4,5}, all p-digit significands, exponents in [-6,6]; precondition |a| >= |b|'
 
@@ -44,7 +46,7 @@ class eft_classic_2sum(Contract):
     returns = 'tuple[Fraction, Fraction]'
     properties = ['C20']
     split = ['p']
-    options = {'dialect': 'fpy', 'fpy_rnd': 'rne', 'bounded': 6, 'bounded_try_ms': 150000, 'bounded_ms': 60000,
+    options = {'dialect': 'fpy', 'fpy_rnd': 'rne', 'bounded': 6, 'bv_enum': True, 'bounded_try_ms': 150000, 'bounded_ms': 60000,
                'int_cases': {'p': [2, 3, 4, 5]}, 'fpy_operands': {'a': ('ma', 'ea'), 'b': ('mb', 'eb')}}
     note = 'BOUNDED: RNE at p digits, p in {2,3,4,5}, all p-digit significands, exponents in [-6,6]; no ordering precondition'
 
@@ -68,9 +70,9 @@ class eft_priest_2sum(Contract):
     returns = 'tuple[Fraction, Fraction]'
     properties = ['C20']
     split = ['p']
-    options = {'dialect': 'fpy', 'fpy_rnd': 'rne', 'bounded': 6, 'bounded_try_ms': 150000, 'bounded_ms': 60000,
-               'int_cases': {'p': [2, 3]}, 'fpy_operands': {'a': ('ma', 'ea'), 'b': ('mb', 'eb')}}
-    note = ('BOUNDED: RNE at p digits, p in {2,3} (p = 4 did not finish within 150 s), all p-digit significands, '
+    options = {'dialect': 'fpy', 'fpy_rnd': 'rne', 'bounded': 6, 'bv_enum': True, 'bounded_try_ms': 150000, 'bounded_ms': 60000,
+               'int_cases': {'p': [2, 3, 4, 5]}, 'fpy_operands': {'a': ('ma', 'ea'), 'b': ('mb', 'eb')}}
+    note = ('BOUNDED: RNE at p digits, p in {2,3,4,5}, all p-digit significands, '
             'exponents in [-6,6]; the first result is only claimed to be faithful, so only the exact-sum clause is stated')
 
     def pre(ma, ea, mb, eb, p, ctx):
@@ -94,7 +96,7 @@ class eft_veltkamp_split(Contract):
     returns = 'tuple[Fraction, Fraction]'
     properties = ['C20']
     split = ['p', 's']
-    options = {'dialect': 'fpy', 'fpy_rnd': 'rne', 'bounded': 6, 'bounded_try_ms': 150000, 'bounded_ms': 60000,
+    options = {'dialect': 'fpy', 'fpy_rnd': 'rne', 'bounded': 6, 'bv_enum': True, 'bounded_try_ms': 150000, 'bounded_ms': 60000,
                'int_cases': {'p': [3, 4, 5], 's': [1, 2]}, 'fpy_operands': {'x': ('mx', 'ex')}}
     note = ('BOUNDED: RNE at p digits, p in {3,4,5}, split position s in {1,2} with 1 <= s <= p - 1 '
             '(enough precision: the constant 2^s + 1 must be representable), exponents in [-6,6]')
@@ -126,7 +128,7 @@ class eft_fast_2mul(Contract):
     returns = 'tuple[Fraction, Fraction]'
     properties = ['C20']
     split = ['p']
-    options = {'dialect': 'fpy', 'fpy_rnd': 'rne', 'bounded': 6, 'bounded_try_ms': 150000, 'bounded_ms': 60000,
+    options = {'dialect': 'fpy', 'fpy_rnd': 'rne', 'bounded': 6, 'bv_enum': True, 'bounded_try_ms': 150000, 'bounded_ms': 60000,
                'int_cases': {'p': [2, 3, 4, 5]}, 'fpy_operands': {'a': ('ma', 'ea'), 'b': ('mb', 'eb')}}
     note = 'BOUNDED: RNE at p digits, p in {2,3,4,5}, all p-digit significands, exponents in [-6,6]; fma available'
 
@@ -150,7 +152,7 @@ class eft_classic_2mul(Contract):
     returns = 'tuple[Fraction, Fraction]'
     properties = ['C20']
     split = ['p']
-    options = {'dialect': 'fpy', 'fpy_rnd': 'rne', 'bounded': 6, 'bounded_try_ms': 150000, 'bounded_ms': 60000,
+    options = {'dialect': 'fpy', 'fpy_rnd': 'rne', 'bounded': 6, 'bv_enum': True, 'bounded_try_ms': 150000, 'bounded_ms': 60000,
                'int_cases': {'p': [4]}, 'fpy_operands': {'a': ('ma', 'ea'), 'b': ('mb', 'eb')}}
     note = 'BOUNDED: RNE at p = 4 digits (even precision, Dekker), all p-digit significands, exponents in [-6,6]'
 
@@ -174,10 +176,13 @@ class eft_classic_2fma(Contract):
     returns = 'tuple[Fraction, Fraction, Fraction]'
     properties = ['C20']
     split = ['p']
-    options = {'dialect': 'fpy', 'fpy_rnd': 'rne', 'bounded': 6, 'bounded_try_ms': 150000, 'bounded_ms': 60000,
-               'int_cases': {'p': [3, 4]},
+    options = {'dialect': 'fpy', 'fpy_rnd': 'rne', 'bounded': 6, 'bv_enum': True, 'bounded_try_ms': 150000, 'bounded_ms': 60000,
+               'int_cases': {'p': [3]},
                'fpy_operands': {'a': ('ma', 'ea'), 'b': ('mb', 'eb'), 'c': ('mc', 'ec')}}
-    note = 'BOUNDED: RNE at p digits, p in {3,4} (Boldo-Muller needs p >= 3), all p-digit significands, exponents in [-6,6]'
+    note = ('BOUNDED: RNE at p = 3 digits, all p-digit significands, exponents of all three operands in [-6,6] (7.4 million '
+            'points, decided by enumeration; the SAT solver did not decide this box within 330 s, and p = 4 on this box is '
+            '65 million points: p in {2,3,4,5}, RNE and RNA, are covered on the box ea = eb = 0, ec in [-6,6] by '
+            'contracts/c20x_eft_modes.py: eftx_classic_2fma)')
 
     def pre(ma, ea, mb, eb, mc, ec, p, ctx):
         return {'ma': -pow2(p) < ma and ma < pow2(p), 'ea': -6 <= ea and ea <= 6,
